@@ -267,7 +267,7 @@ fn parse_at_rule(
     if let Token::AtKeyword(x) = &*peek {
         input.next().ok();
         let at_keyword: &str = &x;
-        if at_keyword == "import" && ss.options.import_sign.is_some() {
+        if at_keyword.eq_ignore_ascii_case("import") && ss.options.import_sign.is_some() {
             // process at-import if needed
             let import_sign = ss.options.import_sign.clone().unwrap();
             let start_pos = input.position();
@@ -284,7 +284,8 @@ fn parse_at_rule(
                 while let Ok(peek) = input.peek() {
                     match &*peek {
                         Token::Function(x) => {
-                            let xs: &str = &x;
+                            let xs = x.to_ascii_lowercase();
+                            let xs: &str = &xs;
                             if !matches!(xs, "layer" | "supports") {
                                 ss.add_warning(
                                     error::ParseErrorKind::UnexpectedCharacter,
